@@ -181,3 +181,48 @@ Inductive resub (E : esc -> Z -> bool) (r : regex) (rep : list Z) : list Z -> li
     (forall mt' b' c', mt ++ b = mt' ++ b' -> matches E r (ctx ++ a) mt' b' c' -> mt' = mt) ->
     resub E r rep (ctx ++ a ++ mt) b out ->
     resub E r rep ctx (a ++ mt ++ b) (a ++ rep ++ out).
+
+(* re.match: a match that starts at the beginning of the subject *)
+Definition rematch (E : esc -> Z -> bool) (r : regex) (text : list Z) (c : caps) : Prop :=
+  exists s post, text = s ++ post /\ matches E r [] s post c.
+
+(* ------------------------------------------------------------------ *)
+(* re.split(r, s) for an expression without groups that matches         *)
+(* non-empty text only                                                  *)
+(* ------------------------------------------------------------------ *)
+(* The subject is cut at every leftmost, non-overlapping match; the pieces between the matches are returned
+   (k matches give k+1 pieces, the first / last piece is empty when a match touches the beginning / end).
+   Modelled of the backtracking order of `re`: the LEFTMOST START and, at that start, the LONGEST match (premise 4).
+   For X+ over a one-character X - the only pattern this is used for - greedy means longest; the theorem that uses
+   resplit proves that the chosen match is the longest at its start. *)
+Inductive resplit (E : esc -> Z -> bool) (r : regex) : list Z -> list Z -> list (list Z) -> Prop :=
+| resplit_none ctx s :
+    (forall a mt b c, s = a ++ mt ++ b -> ~ matches E r (ctx ++ a) mt b c) ->
+    resplit E r ctx s [s]
+| resplit_hit ctx a mt b c out :
+    mt <> [] ->
+    matches E r (ctx ++ a) mt b c ->
+    (forall a' mt' b' c', a ++ mt ++ b = a' ++ mt' ++ b' -> matches E r (ctx ++ a') mt' b' c' ->
+                          (length a <= length a')%nat) ->
+    (forall mt' b' c', mt ++ b = mt' ++ b' -> matches E r (ctx ++ a) mt' b' c' -> (length mt' <= length mt)%nat) ->
+    resplit E r (ctx ++ a ++ mt) b out ->
+    resplit E r ctx (a ++ mt ++ b) (a :: out).
+
+(* ------------------------------------------------------------------ *)
+(* re.findall(r, s) for an expression with exactly two groups that       *)
+(* matches non-empty text only: the list of (group 1, group 2)            *)
+(* ------------------------------------------------------------------ *)
+(* leftmost, non-overlapping matches; at its start each match taken is proved to be the only one (premise 4), so
+   no greedy / priority choice is modelled *)
+Inductive refindall2 (E : esc -> Z -> bool) (r : regex) : list Z -> list Z -> list (list Z * list Z) -> Prop :=
+| refindall2_none ctx s :
+    (forall a mt b c, s = a ++ mt ++ b -> ~ matches E r (ctx ++ a) mt b c) ->
+    refindall2 E r ctx s []
+| refindall2_hit ctx a mt b g1 g2 out :
+    mt <> [] ->
+    matches E r (ctx ++ a) mt b [(1%nat, g1); (2%nat, g2)] ->
+    (forall a' mt' b' c', a ++ mt ++ b = a' ++ mt' ++ b' -> matches E r (ctx ++ a') mt' b' c' ->
+                          (length a <= length a')%nat) ->
+    (forall mt' b' c', mt ++ b = mt' ++ b' -> matches E r (ctx ++ a) mt' b' c' -> mt' = mt) ->
+    refindall2 E r (ctx ++ a ++ mt) b out ->
+    refindall2 E r ctx (a ++ mt ++ b) ((g1, g2) :: out).
